@@ -818,6 +818,12 @@ class EdgeQLSourceGenerator(codegen.SourceGenerator):
         self.write(node.name)
 
     def visit_TypeCast(self, node: qlast.TypeCast) -> None:
+        # a shape binds tighter than a cast: '(<T>x) { a }' is not
+        # '<T>x { a }'
+        parenthesise = isinstance(
+            node._parent, qlast.Shape)  # type: ignore
+        if parenthesise:
+            self.write('(')
         self.write('<')
         if node.cardinality_mod is qlast.CardinalityModifier.Optional:
             self.write('optional ')
@@ -826,6 +832,8 @@ class EdgeQLSourceGenerator(codegen.SourceGenerator):
         self.visit(node.type)
         self.write('>')
         self.visit(node.expr)
+        if parenthesise:
+            self.write(')')
 
     def visit_Indirection(self, node: qlast.Indirection) -> None:
         self.write('(')
